@@ -14,7 +14,7 @@ import (
 var h04Units = []string{
 	"ns/op", "MB/s", "ns", "MB", "ns/MB", "MB/ns", "a-ns", "ns*ns", "ns-MB/s", "x/y*ns",
 	"nsx", "xns", "MBs", "B/op", "sec/op", "allocs/op", "x/ns*MB", "MB-MB/ns-ns", "ns/ns", "op/s*ns",
-	"B/s", "ns*MB/op", "xMB/s", "bytes/ns",
+	"B/s", "ns*MB/op", "xMB/s", "bytes/ns", "MB*MB*MB*ns*ns/op", "ns-ns-ns*MB/s*MB",
 }
 
 var h04Val float64
